@@ -180,6 +180,11 @@ func (g *genv) pick(label string, n int) int { return rapid.IntRange(0, n-1).Dra
 func (g *genv) varsOf(kinds ...gkind) []string {
 	var out []string
 	for _, name := range sortedKeys(g.vars) {
+		if name == "forloop" {
+			// a template may assign forloop (C12 probes it afterwards), but inside a loop the name means the
+			// loop record, whose undocumented fields (size, .cycles) nothing specifies: never read it as a value
+			continue
+		}
 		for _, k := range kinds {
 			if g.vars[name] == k {
 				out = append(out, name)
